@@ -66,8 +66,15 @@ func payloadMsg(sender uint16, round uint8, version int, bcast bool, dst uint16)
 		kind = "B"
 	}
 	p := []byte(fmt.Sprintf("%s|s=%d|r=%d|v=%d|d=%d", kind, sender, round, version, dst))
-	return &rmsg{id: string(p), round: round, digest: digestOf(p), bcast: bcast, payload: p}
+	d := digestOf(p)
+	if digestSharedPrefix > 0 {
+		copy(d[:digestSharedPrefix], digestOf([]byte(fmt.Sprintf("%s|s=%d|r=%d", kind, sender, round))))
+	}
+	return &rmsg{id: string(p), round: round, digest: d, bcast: bcast, payload: p}
 }
+
+// digestSharedPrefix is set while a world is being built (units build and run worlds from one goroutine): see byzScenario.SharedPrefix.
+var digestSharedPrefix int
 
 func ackMsg(about uint16, round uint8, digest []byte, tag string) *rmsg {
 	return &rmsg{id: fmt.Sprintf("ack|about=%d|r=%d|d=%x|%s", about, round, digest[:min(4, len(digest))], tag), round: round, digest: digest, isAck: true, about: about, tag: tag}
